@@ -50,5 +50,6 @@ func main() {
 		}
 	}
 	tr.Close()
+	closeRtTraces()
 	fmt.Printf("{\"scenarios\":%d,\"events\":%d}\n", *n, tr.Len())
 }
